@@ -166,7 +166,7 @@ class PathProver:
                 r, m = self.ex.prove(g0, extra)
             else:
                 syms = [(n, c) for n, (c, _) in CTX.symbols.items()]
-                ra, _ = self.ex.prove_forked(abstract_selects(sg), 6.0, [])      # table reads abstracted: pure bit-level obligation
+                ra, _ = self.ex.prove_forked(abstract_selects(sg), getattr(self, 'abstract_limit', 60.0), [])      # table reads abstracted: pure bit-level obligation
                 if ra == 'unsat':
                     r, vals = 'unsat', None
                 else:
